@@ -23,7 +23,8 @@ Theorem dispatch_model : forall lp fp ps obj, existsb pending_ast ps = true ->
 Proof. intros lp fp ps obj H. split. apply fast_path_not_consulted_with_pending_ast; auto. apply dispatch_search_only; auto. Qed.
 Print Assumptions dispatch_model.
 
-(* m.lin_* with i32 coefficients never contributes an LP row (no pending row, and IntLin* propagators are not scanned) *)
+(* a linear post that is lowered to IntLin* (integer literals over integer variables only, see linear_lowering) never
+   contributes an LP row (no pending row for m.lin_*, and IntLin* propagators are not scanned) *)
 Theorem dispatch_int_lin_no_row : forall rel vars, lp_rows_of (PLin false rel vars) = [].
 Proof. exact lin_posts_give_no_lp_row_before_lowering. Qed.
 Print Assumptions dispatch_int_lin_no_row.
